@@ -49,6 +49,7 @@ const (
 	vfNF      = -1
 	vfERR     = -3
 	vfBLOCKED = -7
+	vfWAIT    = -5
 	vfPANIC   = -9
 	vfNA      = -999
 	vfNOTMULT = -888
@@ -81,12 +82,16 @@ type vfAct struct {
 	Ret  int             `json:"ret"`
 	Res  int64           `json:"res"`
 	RR   json.RawMessage `json:"rr"`
+	W    int             `json:"w"`
+	WRet int             `json:"wret"`
+	WRes int64           `json:"wres"`
 }
 
 type vfObs struct {
 	Cap   int      `json:"cap"`
 	Sizes []int    `json:"sizes"`
 	Scale string   `json:"scale"`
+	Cb    int      `json:"cb"`
 	Free  int      `json:"free"`
 	Len   int      `json:"len"`
 	Size  int64    `json:"size"`
@@ -220,7 +225,8 @@ type vfWorker struct {
 	release chan struct{}
 	busy    bool   // an operation is running (parked at a hook or blocked)
 	at      string // hook it is parked at
-	blocked bool
+	blocked bool   // parked on a mutex nobody will release
+	waiting bool   // parked on the mutex, which a parked worker holds
 
 	// free-running mode
 	free bool
@@ -233,6 +239,7 @@ type vfEnv struct {
 	sizes  []int
 	scale  uint64 // every size and the capacity are multiplied by it for the real cache
 	scaleS string
+	cb     int // 1: the cache has an onDelete callback, which is a yield point ("cb")
 	nk     int
 	vals   []*vfVal // index v-1
 	ws     []*vfWorker
@@ -242,6 +249,14 @@ type vfEnv struct {
 
 func (w *vfWorker) atHook(point string) {
 	if w.free {
+		if point == "cb" {
+			// a user callback takes its time
+			runtime.Gosched()
+			if w.rng.Intn(2) == 0 {
+				time.Sleep(time.Duration(w.rng.Intn(50)) * time.Microsecond)
+			}
+			return
+		}
 		if w.rng.Intn(3) == 0 {
 			runtime.Gosched()
 		}
@@ -330,8 +345,8 @@ func (e *vfEnv) units(v uint64) int64 {
 	return int64(v / e.scale)
 }
 
-func vfInitEnv(cap int, sizes []int, nk int, scale string) (*vfEnv, error) {
-	e := &vfEnv{cap: cap, sizes: sizes, nk: nk, scale: 1, scaleS: scale}
+func vfInitEnv(cap int, sizes []int, nk int, scale string, cb int) (*vfEnv, error) {
+	e := &vfEnv{cap: cap, sizes: sizes, nk: nk, scale: 1, scaleS: scale, cb: cb}
 	if scale != "" {
 		u, err := strconv.ParseUint(scale, 10, 64)
 		if err != nil || u == 0 {
@@ -343,15 +358,23 @@ func vfInitEnv(cap int, sizes []int, nk int, scale string) (*vfEnv, error) {
 	if hi != 0 {
 		return nil, fmt.Errorf("capacity %d x scale %s does not fit uint64", cap, scale)
 	}
-	e.c = NewCache[int, *vfVal](lo)
+	if cb == 1 {
+		// The user callback is a gate of the schedule: the calling
+		// goroutine parks in it like at a verifYield hook.
+		e.c = NewCache[int, *vfVal](lo, WithDeleteCallback(func(int, *vfVal) {
+			vfHook("cb")
+		}))
+	} else {
+		e.c = NewCache[int, *vfVal](lo)
+	}
 	for i, s := range sizes {
 		e.vals = append(e.vals, &vfVal{id: i + 1, size: uint64(s) * e.scale})
 	}
 	return e, nil
 }
 
-func vfNewEnv(cap int, sizes []int, nk, nt int, scale string) (*vfEnv, error) {
-	e, err := vfInitEnv(cap, sizes, nk, scale)
+func vfNewEnv(cap int, sizes []int, nk, nt int, scale string, cb int) (*vfEnv, error) {
+	e, err := vfInitEnv(cap, sizes, nk, scale, cb)
 	if err != nil {
 		return nil, err
 	}
@@ -376,7 +399,7 @@ func (e *vfEnv) shutdown() {
 		e.holder = 0
 	}
 	for _, w := range e.ws {
-		if w.busy && !w.blocked {
+		if w.busy && !w.blocked && !w.waiting {
 			w.release <- struct{}{}
 		}
 	}
@@ -384,7 +407,7 @@ func (e *vfEnv) shutdown() {
 		if w.busy {
 			select {
 			case <-w.ev:
-			case <-time.After(20 * time.Second):
+			case <-time.After(3 * time.Second):
 			}
 		}
 		close(w.cmd)
@@ -403,7 +426,7 @@ func (e *vfEnv) probe() bool {
 }
 
 func (e *vfEnv) observe() vfObs {
-	o := vfObs{Cap: e.cap, Sizes: e.sizes, Scale: e.scaleS, Len: vfNA, Size: vfNA, Filo: [][2]int{}}
+	o := vfObs{Cap: e.cap, Sizes: e.sizes, Scale: e.scaleS, Cb: e.cb, Len: vfNA, Size: vfNA, Filo: [][2]int{}}
 	if e.probe() {
 		o.Free = 1
 		o.Len = e.c.Len()
@@ -500,13 +523,46 @@ func (e *vfEnv) await(w *vfWorker) (ev vfEvent, blockedStack string, err error) 
 
 // step executes one model action. It returns the action with the ACTUAL
 // outcome. stop = true: the path cannot be continued (note says why).
-func (e *vfEnv) step(a vfAct) (out vfStepOut, stop bool, err error) {
+// settle: after a goroutine moved, a goroutine that was parked on the mutex
+// either got it (and is now at a hook or has returned) or is still parked.
+func (e *vfEnv) settle(x *vfWorker, out *vfStepOut) error {
+	deadline := time.Now().Add(30 * time.Second)
+	for {
+		select {
+		case ev := <-x.ev:
+			x.waiting = false
+			out.Act.W = x.t
+			if ev.kind == "ret" {
+				x.busy, x.at = false, ""
+				out.Act.WRet, out.Act.WRes = 1, ev.res
+			} else {
+				x.at = ev.point
+			}
+			return nil
+		default:
+		}
+		st, stack, dump := vfGoState(x.gid)
+		if vfOnMutex(st, stack) {
+			return nil
+		}
+		if time.Now().After(deadline) {
+			return fmt.Errorf("waiting worker %d neither parked nor progressed (status %q)\n%s", x.t, st, dump)
+		}
+		time.Sleep(50 * time.Microsecond)
+	}
+}
+
+// stepOne executes one model action. It returns the action with the ACTUAL
+// outcome. stop = true: the path cannot be continued (note says why);
+// skip = true: nothing was executed and nothing is to be recorded.
+func (e *vfEnv) stepOne(a vfAct) (out vfStepOut, stop, skip bool, err error) {
 	out.Act = a
+	out.Act.W, out.Act.WRet, out.Act.WRes = 0, 0, 0
 	switch a.Op {
 	case "Setup":
 		var l [][2]int
 		if err := json.Unmarshal(a.RR, &l); err != nil {
-			return out, true, err
+			return out, true, false, err
 		}
 		for i := len(l) - 1; i >= 0; i-- {
 			if _, err := e.c.Put(l[i][0], e.vals[l[i][1]-1]); err != nil {
@@ -516,57 +572,55 @@ func (e *vfEnv) step(a vfAct) (out vfStepOut, stop bool, err error) {
 			}
 		}
 		out.Obs = e.observe()
-		return out, false, nil
+		return out, false, false, nil
 	case "Poison":
 		e.vals[a.V-1].bad.Store(true)
 		out.Obs = e.observe()
-		return out, false, nil
+		return out, false, false, nil
 	}
 	if a.T < 1 || a.T > len(e.ws) {
-		return out, true, fmt.Errorf("no worker %d", a.T)
+		return out, true, false, fmt.Errorf("no worker %d", a.T)
 	}
 	w := e.ws[a.T-1]
-	if w.blocked {
+	if w.blocked || w.waiting {
 		out.Note = "drift: worker is parked on the mutex, step not executed"
 		out.Obs = e.observe()
-		return out, true, nil
+		return out, true, false, nil
 	}
 	if a.Call == 1 {
 		if w.busy {
 			out.Note = "drift: model starts an operation while the previous one of this thread has not returned"
 			out.Obs = e.observe()
-			return out, true, nil
+			return out, true, false, nil
 		}
 		w.busy = true
 		w.cmd <- vfOp{op: a.Op, k: a.K, v: a.V}
 	} else {
 		if !w.busy {
-			out.Note = "drift: model continues an operation that has already returned in the code"
-			out.Obs = e.observe()
-			return out, true, nil
+			// the operation has already returned in the code (it was
+			// run to completion after a deviation, see step)
+			return out, false, true, nil
 		}
 		w.release <- struct{}{}
 	}
 	ev, bstack, err := e.await(w)
 	if err != nil {
-		return out, true, err
+		return out, true, false, err
 	}
-	out.Act.Call = a.Call
 	if bstack != "" {
 		if e.holder > 0 {
-			// A parked goroutine holds the mutex: the model did not expect
-			// this step to need it. Not a hang.
-			w.blocked = true
-			out.Note = fmt.Sprintf("drift: step needs the mutex held by parked worker %d", e.holder)
-			out.Act.Ret, out.Act.Res = 0, 0
+			// A parked goroutine holds the mutex: the call waits for
+			// it. Not a hang; it goes on when the holder unlocks.
+			w.waiting = true
+			out.Act.Ret, out.Act.Res = 0, vfWAIT
 			out.Obs = e.observe()
-			return out, true, nil
+			return out, false, false, nil
 		}
 		w.blocked = true
 		out.Act.Ret, out.Act.Res = 0, vfBLOCKED
 		out.Dump = bstack
 		out.Obs = e.observe()
-		return out, false, nil
+		return out, false, false, nil
 	}
 	wasFree := e.holder == 0
 	switch ev.kind {
@@ -582,9 +636,19 @@ func (e *vfEnv) step(a vfAct) (out vfStepOut, stop bool, err error) {
 			out.Act.RR = b
 		}
 	}
+	// goroutines that were waiting for the mutex may have got it
+	for _, x := range e.ws {
+		if x != w && x.waiting {
+			if err := e.settle(x, &out); err != nil {
+				return out, true, false, err
+			}
+		}
+	}
 	// who holds the mutex now?
 	if e.probe() {
 		e.holder = 0
+	} else if out.Act.W != 0 && out.Act.WRet == 0 {
+		e.holder = out.Act.W
 	} else if wasFree || e.holder == w.t {
 		if ev.kind == "ret" {
 			e.holder = -1
@@ -605,11 +669,45 @@ func (e *vfEnv) step(a vfAct) (out vfStepOut, stop bool, err error) {
 			if ok {
 				out.Dump = stack
 			} else {
-				return out, true, fmt.Errorf("mutex probe says held, but Len() is not parked on it: %s", stack)
+				return out, true, false, fmt.Errorf("mutex probe says held, but Len() is not parked on it: %s", stack)
 			}
 		}
 	}
-	return out, false, nil
+	return out, false, false, nil
+}
+
+// step executes one model action and returns the recorded step(s). When the
+// model expects the call to wait for the mutex (res = WAIT) but the code lets
+// it in, the call is run to completion right away (extra steps "auto", marked
+// as drift): that is the schedule in which a missing exclusion does its
+// damage, and Props judges what the code did.
+func (e *vfEnv) step(a vfAct) (outs []vfStepOut, stop bool, err error) {
+	out, stop, skip, err := e.stepOne(a)
+	if err != nil || skip {
+		return nil, stop, err
+	}
+	outs = append(outs, out)
+	if stop || a.Op == "Setup" || a.Op == "Poison" {
+		return outs, stop, nil
+	}
+	if a.Res == vfWAIT && out.Act.Res != vfWAIT && out.Act.Ret == 0 && out.Act.Res == 0 {
+		for i := 0; i < 16; i++ {
+			aa := vfAct{Op: a.Op, T: a.T, K: a.K, V: a.V, Step: "auto", RR: json.RawMessage("[]")}
+			o2, stop2, _, err := e.stepOne(aa)
+			if err != nil {
+				return outs, true, err
+			}
+			o2.Note = "drift: the call was not held back by the mutex; run to completion"
+			outs = append(outs, o2)
+			if stop2 {
+				return outs, true, nil
+			}
+			if o2.Act.Ret == 1 || o2.Act.Res == vfWAIT || o2.Act.Res == vfBLOCKED {
+				break
+			}
+		}
+	}
+	return outs, false, nil
 }
 
 func vfMaxT(p vfPathIn) int {
@@ -625,7 +723,7 @@ func vfMaxT(p vfPathIn) int {
 func vfRunPath(p vfPathIn) (out vfPathOut) {
 	out.ID = p.ID
 	out.Steps = []vfStepOut{}
-	e, err := vfNewEnv(p.InitObs.Cap, p.InitObs.Sizes, len(p.InitObs.Range), vfMaxT(p), p.InitObs.Scale)
+	e, err := vfNewEnv(p.InitObs.Cap, p.InitObs.Sizes, len(p.InitObs.Range), vfMaxT(p), p.InitObs.Scale, p.InitObs.Cb)
 	if err != nil {
 		out.Error = err.Error()
 		return
@@ -640,15 +738,17 @@ func vfRunPath(p vfPathIn) (out vfPathOut) {
 	}()
 	out.InitObs = e.observe()
 	for _, s := range p.Steps {
-		so, stop, err := e.step(s.Act)
+		sos, stop, err := e.step(s.Act)
 		if err != nil {
 			out.Error = err.Error()
 			return
 		}
-		if so.Act.RR == nil {
-			so.Act.RR = json.RawMessage("[]")
+		for _, so := range sos {
+			if so.Act.RR == nil {
+				so.Act.RR = json.RawMessage("[]")
+			}
+			out.Steps = append(out.Steps, so)
 		}
-		out.Steps = append(out.Steps, so)
 		if stop {
 			return
 		}
@@ -735,6 +835,7 @@ type vfFreeCfg struct {
 	Sizes   []int    `json:"sizes"`
 	NK      int      `json:"nk"`
 	Scale   string   `json:"scale"`
+	Cb      int      `json:"cb"`
 	Poison  bool     `json:"poison"`
 	Kinds   []string `json:"kinds"`
 	FirstID int      `json:"first_id"`
@@ -770,7 +871,7 @@ func vfFreeTrace(c vfFreeCfg, id int) (out vfPathOut) {
 	out.ID = id
 	out.Steps = []vfStepOut{}
 	rng := rand.New(rand.NewSource(c.Seed*1000003 + int64(id)))
-	e, err := vfInitEnv(c.Cap, c.Sizes, c.NK, c.Scale)
+	e, err := vfInitEnv(c.Cap, c.Sizes, c.NK, c.Scale, c.Cb)
 	if err != nil {
 		out.Error = err.Error()
 		return
@@ -782,7 +883,7 @@ func vfFreeTrace(c vfFreeCfg, id int) (out vfPathOut) {
 			out.Error = fmt.Sprintf("driver panic: %v\n%s", r, buf)
 		}
 	}()
-	lg := &vfLog{blank: vfObs{Cap: c.Cap, Sizes: c.Sizes, Scale: c.Scale, Free: 2, Len: vfNA, Size: vfNA,
+	lg := &vfLog{blank: vfObs{Cap: c.Cap, Sizes: c.Sizes, Scale: c.Scale, Cb: c.Cb, Free: 2, Len: vfNA, Size: vfNA,
 		Range: make([]int, c.NK), Filo: [][2]int{}, Idx: make([]int, c.NK)}}
 	out.InitObs = e.observe()
 
@@ -800,19 +901,19 @@ func vfFreeTrace(c vfFreeCfg, id int) (out vfPathOut) {
 		l = [][2]int{}
 	}
 	rr, _ := json.Marshal(l)
-	so, _, err := e.step(vfAct{Op: "Setup", Step: "env", RR: rr})
+	sos, _, err := e.step(vfAct{Op: "Setup", Step: "env", RR: rr})
 	if err != nil {
 		out.Error = err.Error()
 		return
 	}
-	out.Steps = append(out.Steps, so)
+	out.Steps = append(out.Steps, sos...)
 
 	for round := 0; round < c.Rounds; round++ {
 		if c.Poison && rng.Intn(3) == 0 {
 			v := 1 + rng.Intn(len(c.Sizes))
 			if !e.vals[v-1].bad.Load() {
-				so, _, _ := e.step(vfAct{Op: "Poison", V: v, Step: "env", RR: json.RawMessage("[]")})
-				out.Steps = append(out.Steps, so)
+				sos, _, _ := e.step(vfAct{Op: "Poison", V: v, Step: "env", RR: json.RawMessage("[]")})
+				out.Steps = append(out.Steps, sos...)
 			}
 		}
 		lg.steps = nil
